@@ -374,6 +374,9 @@ func runProperty(prop, tier string) int {
 					}
 					if ok {
 						validated++
+					} else if o.assumeF && l.configs[w.tape.Harness]["idealhash"] == "yes" && len(o.failed) == 0 && o.panicMsg == "" {
+						// the solver's interpretation of the ideal hash differs from the real hash, so the
+						// native run leaves the path at an assumption over hash values: witness not applicable
 					} else {
 						inconclusive = append(inconclusive, fmt.Sprintf("%s: path witness %s disagrees with native run (engine=%v native=%v failed=%v panic=%q assume=%v mismatch=%v)",
 							w.tape.Harness, w.s.Decisions, w.tape.Expect, o.observes, o.failed, o.panicMsg, o.assumeF, o.mismatch))
@@ -401,7 +404,7 @@ func runProperty(prop, tier string) int {
 		fmt.Printf("KNOWN-FINDING: property=%s %s [%s; native: %s]\n", prop, what, k.v.Known, k.native)
 	}
 	for n, v := range news {
-		modelLevel := l.configs[v.v.Harness]["native"] == "no"
+		modelLevel := l.configs[v.v.Harness]["native"] == "no" || (l.configs[v.v.Harness]["idealhash"] == "yes" && v.native != "reproduced")
 		path := filepath.Join(*flagVerif, "replays", fmt.Sprintf("%s-%d.json", prop, n))
 		t := mkTape(v.v)
 		data, _ := json.MarshalIndent(t, "", " ")
